@@ -1,9 +1,9 @@
 package sim
 
 import (
-	"time"
 	"fmt"
 	"strings"
+	"time"
 )
 
 // statusProgram wraps a template program and shapes the status it returns.
@@ -85,7 +85,7 @@ func C11Scenario() *Scenario {
 			return ops
 		}
 		pol := &Policy{Name: "status-faults", Shuffle: t.Pick(2, "shuffle") == 1, HoldWatch: 150 * t.Pick(4, "hold"), EnvProb: 100, AdvanceProb: 20,
-			APIFault: 60 + 60*t.Pick(3, "faultrate"), APIFaults: []string{"409", "500", "503", "504", "404", "neterr", "lost"},
+			APIFault: 60 + 60*t.Pick(3, "faultrate"), APIFaults: []string{"409", "500", "503", "504", "404", "neterr", "lost", "servertimeout", "429"},
 			FaultFilter: func(r *ReqRec) bool { return r.Sync >= 0 }}
 		w.Cfg["policy"] = fmt.Sprintf("hold=%d fault=%d", pol.HoldWatch, pol.APIFault)
 		w.Stages = []Stage{
